@@ -202,7 +202,10 @@ func (t *T) AppendVariant(variantT T) {
 
 			isArrayContained = true
 
-			newVariants := currentTVariant.GetVariants()
+			// work on a copy: the slice is shared with currentTVariant (and, when an array
+			// is merged with a type derived from itself, with variantT), and the element
+			// writes below would otherwise make an element contain its own slice
+			newVariants := append([]T(nil), currentTVariant.GetVariants()...)
 
 			targetVariants := variantT.GetVariants()
 
